@@ -74,11 +74,23 @@ impl Read for EvReader {
                 Some(Ev::Fail(id)) => {
                     let id = *id;
                     self.i += 1;
-                    return Err(io::Error::new(io::ErrorKind::Other, format!("injected read failure #{}", id)));
+                    return Err(io::Error::new(fail_kind(id), format!("injected read failure #{}", id)));
                 }
             }
         }
     }
+}
+
+/// The kind of the injected hard error with identity `id`: every kind a real
+/// stream may report, chosen by the id so that a run replays exactly.
+/// (Interrupted is not a hard error: io::Bytes retries it.)
+pub fn fail_kind(id: u32) -> io::ErrorKind {
+    const KINDS: [io::ErrorKind; 12] = [
+        io::ErrorKind::Other, io::ErrorKind::UnexpectedEof, io::ErrorKind::InvalidData, io::ErrorKind::BrokenPipe,
+        io::ErrorKind::TimedOut, io::ErrorKind::WouldBlock, io::ErrorKind::ConnectionReset, io::ErrorKind::InvalidInput,
+        io::ErrorKind::PermissionDenied, io::ErrorKind::NotFound, io::ErrorKind::WriteZero, io::ErrorKind::ConnectionAborted,
+    ];
+    KINDS[(id as usize) % KINDS.len()]
 }
 
 pub fn code_name(msg: &str) -> &'static str {
@@ -123,10 +135,28 @@ pub fn err_obs(e: &Error) -> String {
             };
             format!("err {} {} {}", code_name(msg), loc.line(), loc.column())
         }
-        None => match text.find("injected read failure #") {
-            Some(i) => format!("io {}", &text[i + "injected read failure #".len()..]),
-            None => format!("io ?{}", text),
-        },
+        None => {
+            // an error without a location is a read failure: it is in the I/O
+            // category whatever its kind, and carries the stream's own error
+            use lexpr::parse::error::Category;
+            if e.classify() != Category::Io {
+                return format!("IO-MISCLASSIFIED classify={:?} ({})", e.classify(), text);
+            }
+            match text.find("injected read failure #") {
+                Some(i) => {
+                    let idtxt = &text[i + "injected read failure #".len()..];
+                    if let (Ok(id), Some(src)) = (idtxt.trim().parse::<u32>(), std::error::Error::source(e)) {
+                        match src.downcast_ref::<io::Error>() {
+                            Some(ioe) if ioe.kind() == fail_kind(id) => {}
+                            Some(ioe) => return format!("IO-KIND-CHANGED {:?} for injected {:?} ({})", ioe.kind(), fail_kind(id), text),
+                            None => return format!("IO-SOURCE-NOT-IO-ERROR ({})", text),
+                        }
+                    }
+                    format!("io {}", idtxt)
+                }
+                None => format!("io ?{}", text),
+            }
+        }
     }
 }
 
